@@ -69,6 +69,18 @@ func (d *Decoder) decodeObject(o Object, ignoreCRC bool) {
 			return
 		}
 
+		// an enum value IS its constructor id: naming an enum type selects among the members of that type
+		if v := reflect.ValueOf(o); v.Kind() == reflect.Ptr && !v.IsNil() {
+			if e := v.Elem(); e.Kind() == reflect.Uint32 {
+				if _, isEnum := enumCrcs[crcCode]; isEnum && objectByCrc[crcCode] == e.Type() {
+					e.SetUint(uint64(crcCode))
+				} else {
+					d.err = fmt.Errorf("invalid crc code: %#v is not a member of %v", crcCode, e.Type())
+				}
+				return
+			}
+		}
+
 		if crcCode != o.CRC() {
 			d.err = fmt.Errorf("invalid crc code: %#v, want: %#v", crcCode, o.CRC())
 			return
